@@ -630,7 +630,7 @@ def task_hyp(ctx: Ctx, shard: int, n: int) -> None:
 
 
 def tasks(tier: str, seed: int) -> list[Task]:
-    n = 2500 if tier == "quick" else 30000
+    n = 2000 if tier == "quick" else 30000
     out = [Task("task_hyp", {"shard": i, "n": n}, f"hyp-{TYPES[i % len(TYPES)]}-{i}") for i in range(len(TYPES))]
     ids = pyo.cal_ids()
     # calendar-aware ordering: 19 (quick) / 200 (thorough) consecutive years from a seed-chosen start, per calendar
